@@ -47,12 +47,13 @@ static void report(const char *sig, const char *cs) {
 }
 static const char *szclass(size_t sz, char *b) { sprintf(b, sz < 256 ? "size<256" : sz == 256 ? "size=256" : "size>256"); return b; }
 static int verbose;
+static int g_known;      /* 1: the array's size in bytes is passed as the object size the compiler would know */
 
 /* keys[]: nmemb key bytes. returns 0 ok */
 static void do_sort(const unsigned char *keys, size_t n, size_t sz, const char *kind) {
     char cs[400], hx[420] = "", sig[160], sb[32];
     for (size_t i = 0; i < n && i < 200; i++) sprintf(hx + 2 * i, "%02x", keys[i]);
-    snprintf(cs, sizeof cs, "sort %zu %zu %s", sz, n, n ? hx : "-");
+    snprintf(cs, sizeof cs, "%s %zu %zu %s", g_known ? "sortk" : "sort", sz, n, n ? hx : "-");
     size_t bytes = n * sz; if (bytes > asz - 2 * PG) return;
     base = arena + asz - PG - bytes;            /* flush against the trailing guard; exact fit */
     g_n = n; g_sz = sz;
@@ -61,7 +62,7 @@ static void do_sort(const unsigned char *keys, size_t n, size_t sz, const char *
     unsigned char *before = malloc(bytes + 1); memcpy(before, base, bytes);
     bad_ptr = bad_ctx = ncmp = 0; n_arrays++;
     int rc = 0, faulted = 0;
-    if (sigsetjmp(jb, 1) == 0) { armed = 1; rc = qs(base, n, sz, cmp_sort, &ctx_cookie, (size_t)-1); armed = 0; } else faulted = 1;
+    if (sigsetjmp(jb, 1) == 0) { armed = 1; rc = qs(base, n, sz, cmp_sort, &ctx_cookie, g_known ? bytes : (size_t)-1); armed = 0; } else faulted = 1;
     n_cmp += ncmp;
     if (verbose) { printf("qsort_s rc=%d fault=%d comparisons=%d keys after:", rc, faulted, (int)ncmp); for (size_t i = 0; i < n; i++) printf(" %d", base[i * sz]); printf("\n"); }
     if (faulted) { snprintf(sig, sizeof sig, "C16|qsort_s|access-outside-array|%s", szclass(sz, sb)); report(sig, cs); free(before); return; }
@@ -79,7 +80,7 @@ static void do_sort(const unsigned char *keys, size_t n, size_t sz, const char *
 static void do_search(const unsigned char *sorted, size_t n, size_t sz, int key) {
     char cs[400], hx[420] = "", sig[160], sb[32];
     for (size_t i = 0; i < n && i < 200; i++) sprintf(hx + 2 * i, "%02x", sorted[i]);
-    snprintf(cs, sizeof cs, "search %zu %zu %s %d", sz, n, n ? hx : "-", key);
+    snprintf(cs, sizeof cs, "%s %zu %zu %s %d", g_known ? "searchk" : "search", sz, n, n ? hx : "-", key);
     size_t bytes = n * sz; if (bytes > asz - 4 * PG) return;
     base = arena + asz - PG - bytes; g_n = n; g_sz = sz;
     for (size_t i = 0; i < n; i++) { unsigned char *e = base + i * sz; e[0] = sorted[i]; for (size_t k = 1; k < sz; k++) e[k] = (unsigned char)(i * 7 + k); }
@@ -88,7 +89,7 @@ static void do_search(const unsigned char *sorted, size_t n, size_t sz, int key)
     static unsigned char keyobj[600]; keyobj[0] = key; g_key = keyobj;
     bad_ptr = bad_ctx = ncmp = 0; n_searches++;
     void *r = NULL; int faulted = 0;
-    if (sigsetjmp(jb, 1) == 0) { armed = 1; r = bs(keyobj, base, n, sz, cmp_search, &ctx_cookie, (size_t)-1); armed = 0; } else faulted = 1;
+    if (sigsetjmp(jb, 1) == 0) { armed = 1; r = bs(keyobj, base, n, sz, cmp_search, &ctx_cookie, g_known ? bytes : (size_t)-1); armed = 0; } else faulted = 1;
     n_cmp += ncmp;
     int exists = 0; for (size_t i = 0; i < n; i++) if (sorted[i] == key) exists = 1;
     if (verbose) printf("bsearch_s -> %s (index %ld) fault=%d comparisons=%d exists=%d\n", r ? "found" : "NULL", r ? (long)(((unsigned char *)r - base) / (long)sz) : -1L, faulted, (int)ncmp, exists);
@@ -198,12 +199,42 @@ static void do_big(size_t n, int fam, size_t p) {
 }
 static int cmp_uc(const void *a, const void *b) { return (int)*(const unsigned char *)a - (int)*(const unsigned char *)b; }
 
+/* element counts and sizes that are not true: above the documented limit, or with a product that does not fit a size_t and
+ * wraps to something small.  The array is 10 four-byte elements; with the object size unknown and with it known (40 bytes).
+ * Every such call must be refused and reported exactly once, and the comparator must not be called at all. */
+static int lh_n; static void lim_handler(const char *m, void *p, int e) { (void)m; (void)p; (void)e; lh_n++; }
+static void *(*set_mem_h)(void *); static void *(*set_str_h)(void *);
+static void do_limits(void) {
+    static const size_t NS[][2] = { { ((size_t)1 << 61) + 1, 8 }, { ((size_t)1 << 62) + 1, 4 }, { ((size_t)1 << 63) + 5, 2 }, { (size_t)-1 / 4 + 3, 4 }, { (size_t)-1, 4 }, { (size_t)-1, (size_t)-1 },
+        { (size_t)1 << 32, (size_t)1 << 32 }, { (size_t)1 << 63, 2 }, { (256UL << 20) + 1, 4 }, { 3, (256UL << 20) + 1 }, { (size_t)1 << 40, 4 }, { 11, 4 }, { 10, 5 } };
+    if (!set_mem_h || !set_str_h) return;
+    set_mem_h((void *)lim_handler); set_str_h((void *)lim_handler);
+    for (int fn = 0; fn < 2; fn++) for (int known = 0; known < 2; known++) for (unsigned i = 0; i < sizeof NS / sizeof NS[0]; i++) {
+        size_t n = NS[i][0], sz = NS[i][1]; char cs[200], sig[160];
+        if (!known && i >= 11) continue;      /* the last two are wrong only against the known size of the object */
+        snprintf(cs, sizeof cs, "limits %d %d %u", fn, known, i);
+        base = arena + asz - PG - 40; g_n = 10; g_sz = 4; for (int k = 0; k < 10; k++) { memset(base + 4 * k, 0, 4); base[4 * k] = k; }
+        static unsigned char keyobj[8]; keyobj[0] = 7; g_key = keyobj;
+        bad_ptr = bad_ctx = ncmp = 0; lh_n = 0; n_arrays++;
+        int rc = 0, faulted = 0; void *r = NULL; errno = 0;
+        if (sigsetjmp(jb, 1) == 0) { armed = 1; alarm(20); if (fn == 0) rc = qs(base, n, sz, cmp_sort, &ctx_cookie, known ? 40 : (size_t)-1); else r = bs(keyobj, base, n, sz, cmp_search, &ctx_cookie, known ? 40 : (size_t)-1); alarm(0); armed = 0; } else { alarm(0); faulted = 1; }
+        const char *f = fn ? "bsearch_s" : "qsort_s", *kn = known ? "object-size-known" : "object-size-unknown";
+        if (verbose) printf("%s nmemb=%zu size=%zu %s: rc=%d r=%p errno=%d fault=%d comparisons=%ld handler=%d\n", f, n, sz, kn, rc, r, errno, faulted, ncmp, lh_n);
+        if (faulted) { snprintf(sig, sizeof sig, "C16|%s|limits:access-outside-array|%s", f, kn); report(sig, cs); continue; }
+        if (ncmp) { snprintf(sig, sizeof sig, "C16|%s|limits:comparator-called-for-a-count-that-cannot-be-true|%s", f, kn); report(sig, cs); continue; }
+        if (fn == 0 ? rc == 0 : (r != NULL || lh_n == 0)) { snprintf(sig, sizeof sig, "C16|%s|limits:not-refused|%s", f, kn); report(sig, cs); continue; }
+        if (lh_n != 1) { snprintf(sig, sizeof sig, "C16|%s|limits:reported-%d-times|%s", f, lh_n, kn); report(sig, cs); }
+    }
+    set_mem_h(NULL); set_str_h(NULL);
+}
+
 int main(int argc, char **argv) {
     setvbuf(stdout, NULL, _IOLBF, 0);
     void *L = dlopen(getenv("CAT_LIB"), RTLD_NOW | RTLD_GLOBAL);
     if (!L) { fprintf(stderr, "cannot load CAT_LIB\n"); return 2; }
     qs = dlsym(L, "_qsort_s_chk"); bs = dlsym(L, "_bsearch_s_chk");
     if (!qs || !bs) { fprintf(stderr, "missing symbols\n"); return 2; }
+    set_mem_h = dlsym(L, "set_mem_constraint_handler_s"); set_str_h = dlsym(L, "set_str_constraint_handler_s");
     arena = mmap(NULL, asz, PROT_READ | PROT_WRITE, MAP_PRIVATE | MAP_ANONYMOUS, -1, 0);
     mprotect(arena, PG, PROT_NONE); mprotect(arena + asz - PG, PG, PROT_NONE);
     signal(SIGSEGV, on_segv); signal(SIGALRM, on_alarm); if (getenv("C16_TIME_LIMIT")) time_limit = atoi(getenv("C16_TIME_LIMIT"));
@@ -212,7 +243,8 @@ int main(int argc, char **argv) {
         if (strcmp(argv[2], "big")) for (size_t i = 0; i < n && i < 256; i++) { unsigned v = 0; sscanf(argv[5] + 2 * i, "%2x", &v); k[i] = v; }
         if (!strcmp(argv[2], "big")) do_big(atol(argv[3]), atoi(argv[4]), atol(argv[5]));
         else if (!strcmp(argv[2], "nested")) do_nested(k, n, sz, atol(argv[6]), atoi(argv[7]));
-        else if (!strcmp(argv[2], "sort")) do_sort(k, n, sz, "replay"); else do_search(k, n, sz, atoi(argv[6]));
+        else if (!strcmp(argv[2], "limits")) do_limits();
+        else if (!strcmp(argv[2], "sort") || !strcmp(argv[2], "sortk")) { g_known = argv[2][4] == 'k'; do_sort(k, n, sz, "replay"); } else { g_known = !strcmp(argv[2], "searchk"); do_search(k, n, sz, atoi(argv[6])); }
         if (nsig) { printf("VERDICT violation %s\n", sigs[0]); return 1; }
         printf("VERDICT ok\n"); return 0;
     }
@@ -224,6 +256,7 @@ int main(int argc, char **argv) {
         return 0;
     }
     int N = atoi(argv[1]), perms = atoi(argv[2]); long shard = atol(argv[3]), nsh = atol(argv[4]);
+    if (shard == 0) do_limits();
     static const size_t SZ[] = { 1, 2, 3, 4, 7, 8, 12, 16, 24, 255, 256, 257, 300, 513 };
     int nszs = sizeof SZ / sizeof SZ[0];
     long idx = 0; unsigned char k[256], srt[256];
@@ -236,6 +269,8 @@ int main(int argc, char **argv) {
                 do_sort(k, n, SZ[s], "keys3");
                 int sorted = 1; for (int i = 1; i < n; i++) if (k[i - 1] > k[i]) sorted = 0;
                 if (sorted) for (int key = 0; key <= 3; key++) do_search(k, n, SZ[s], key);
+                if (SZ[s] == 4 || SZ[s] == 257) {      /* the same with the object size known to the library (what the public macro passes for an array) */
+                    g_known = 1; do_sort(k, n, SZ[s], "keys3"); if (sorted) for (int key = 0; key <= 3; key++) do_search(k, n, SZ[s], key); g_known = 0; }
             }
         }
     }
